@@ -90,4 +90,7 @@ theorem finalizer_decision_eq (a : FinAtoms) :
 theorem release_eq (a : ReleaseAtoms) : Extracted.releaseCore a = releaseCore a := by
   rcases a with ⟨x, y, z, w⟩; cases x <;> cases y <;> cases z <;> cases w <;> rfl
 
+theorem early_exit_eq (a : ExitAtoms) : Extracted.earlyExitCore a = earlyExitCore a := by
+  rcases a with ⟨x, y, z⟩; cases x <;> cases y <;> cases z <;> rfl
+
 end Kopf.C15.Tie
